@@ -14,7 +14,7 @@ open(p, 'w').write(s.replace(old, new, 1))
 PY
 [ $? -eq 0 ] || { rm -rf "$D"; exit 3; }
 for P in ${PROPS//,/ }; do
-  OUT=$(cd /verif && VERIF_REPO_SRC="$D/src" ./check "$P" --tier "${TIER:-quick}" 2>&1 | tail -3)
+  OUT=$(cd /verif && VERIF_EVIDENCE_DIR=/verif/.work/evidence-scratch VERIF_REPO_SRC="$D/src" ./check "$P" --tier "${TIER:-quick}" 2>&1 | tail -3)
   RC=$?
   echo "[$P] $(echo "$OUT" | grep -E 'VIOLATION|HELD|INCONCLUSIVE' | head -1) :: $(echo "$OUT" | grep -E 'violations by mechanism' | head -1 | cut -c1-200)"
 done
